@@ -16,7 +16,12 @@ RULE = ("Metamorphic. Hypothesis draws a case (small strongly/weakly consistent 
         "extension by unused atoms, replacing antecedents/consequents in base or query by "
         "equivalent formulas (double negation, De Morgan, commutation, association, distribution, "
         "absorption with Top/Bottom, tautological conjunct, idempotence), conditional-level "
-        "rewrites preserving verification and falsification ((B|A)->(A,B|A), (B;!A|A)). "
+        "rewrites preserving verification and falsification ((B|A)->(A,B|A), (B;!A|A)), clause-"
+        "structure rewrites (conjunctive consequent b,c -> !(!b;!c); B -> B,(B;x)). A further source "
+        "are 'distinguishing inputs' (vlib/hard.py: queries on which the System W / lexicographic "
+        "procedure and a plausible wrong variant of it disagree, listed general rules first), each "
+        "compared with three independent transformations (listing order / clause structure / "
+        "rewritten duplicate, by kind) on the targeted operator's two back-ends. "
         "Equivalence of every rewrite is re-checked by truth table when the formula has <= 12 "
         "atoms. Oracle: every operator x back-end x mode gives the same answers before and after. "
         "evaluations = answers compared. non-trivial = the transformation changed the targeted "
@@ -27,13 +32,13 @@ ASSUMPTIONS = ["no independent oracle needed; equivalence of rewrites re-checked
 TECHNIQUE = "metamorphic property-based testing (presentation-changing, meaning-preserving transformations)"
 
 CFGS = ["p", "z", "w-rc2", "w-z3", "lex-rc2", "lex-z3", "c"]
-TRANSFORMS = ["equiv:duplicate", "rekey:zero", "rekey:sparse", "rekey:gap", "rekey:permuted", "reorder", "reorder:specific-first", "rename", "rename:internal",
+TRANSFORMS = ["equiv:flatten", "equiv:clausal", "equiv:duplicate", "rekey:zero", "rekey:sparse", "rekey:gap", "rekey:permuted", "reorder", "reorder:specific-first", "rename", "rename:internal",
               "signature", "equiv:base", "equiv:query", "condrewrite"]
 INTERNAL = ["eta_1", "eta_2", "mv_0", "mf_1", "mv_1", "gamma-_1", "eta_3"]
 
 
 def budget(tier):
-    return {"examples": 600 if tier == "quick" else 5000,
+    return {"examples": 600 if tier == "quick" else 5000, "hard_examples": 320 if tier == "quick" else 3200,
             "soft_seconds": 300 if tier == "quick" else 3000}
 
 
@@ -49,6 +54,17 @@ def _searchws(seed):
     from .. import search as S
     feat = ["superset-before-subset", "min-card-set-after-larger"][seed % 2]
     return S.worldset_search(seed, feat, max_candidates=6000, need_lex_tie=(seed % 2 == 1))
+
+
+def _hard(seed):
+    """distinguishing inputs for the System W / lexicographic procedures (vlib/hard.py): the answer
+    on them is decided by one particular step of the procedure, so a presentation-dependent slip in
+    that step shows as a changed answer"""
+    from .. import hard
+    # kinds whose wrong variant is about presentation (clause structure, duplicates, listing order) weigh more
+    kinds = hard.KINDS + hard.COST_KINDS + ["lex:dedupe", "lex:dedupe", "w:tie-set-leaks-down", "w:tie-set-leaks-down",
+                                            "lex:flip-below-tie", "w:flip-below-tie"]
+    return hard.any_kind(seed, kinds=kinds, order="general")
 
 
 def _layered():
@@ -72,15 +88,40 @@ def _case(draw, tier):
         rel.medium_case(8, 16 if q else 40, 16 if q else 40, nq=3),
         rel.corpus_case(20 if q else 100, 20 if q else 100, nq=2),
     )))
+    return _finish(draw, c)
+
+
+def _finish(draw, c):
     k = draw(st.integers(1, 3))
     ts = [draw(gen._weighted([(t, 2 if t == "rename:internal" else 6) for t in TRANSFORMS])) for _ in range(k)]
     if c.get("searched") in ("superset-before-subset", "min-card-set-after-larger"):
         ts = ["equiv:base"] + ts[:1]
     if c.get("searched") == "three-layer-tie":
         ts = [draw(st.sampled_from(["reorder:specific-first", "reorder:specific-first", "reorder"]))] + ts[:1]
+    kind = str(c.get("searched", ""))
+    if kind.startswith(("w:", "lex:")):
+        # several independent transformations of the same distinguishing input
+        from .. import hard
+        third = draw(st.sampled_from(["rekey:permuted", "equiv:base", "equiv:clausal", "rekey:zero", "condrewrite"]))
+        if kind in hard.COST_KINDS:
+            c["variants"] = [["equiv:flatten"], ["equiv:clausal", "reorder"], ["reorder:specific-first", third]]
+        elif kind == "lex:dedupe":
+            c["variants"] = [["equiv:duplicate"], ["equiv:duplicate", "rekey:permuted"], ["reorder:specific-first", third]]
+        else:
+            c["variants"] = [["reorder:specific-first"], ["reorder"], [third]]
+        ts = c["variants"][0]
     c["transforms"] = ts
     c["tseed"] = draw(st.integers(0, 2**32))
     return c
+
+
+@st.composite
+def _hard_case(draw):
+    return _finish(draw, dict(draw(st.integers(0, 2**40).map(_hard))))
+
+
+def hard_strategy(tier):
+    return _hard_case()
 
 
 def strategy(tier):
@@ -154,6 +195,10 @@ def equiv_rewrite(f, rnd, atoms):
     return h
 
 
+def _conjuncts(g):
+    return _conjuncts(g[1]) + _conjuncts(g[2]) if g[0] == "a" else [g]
+
+
 def fresh_names(rnd, k, avoid):
     out = []
     pool = ["Bird", "x1", "LongAtomNameNumber17", "q_r", "a-b", "Zz9", "atom_with_underscores", "P", "k2-z",
@@ -224,6 +269,36 @@ def apply_transform(t, atoms, base, queries, rnd):
         pos = rnd.randint(0, len(a))
         a = a[:pos] + extra + a[pos:]
         return a, base, queries, a != atoms
+    if t == "equiv:flatten":
+        # every conjunctive consequent b,c,... becomes !(!b;!c;...) (no longer one clause per conjunct)
+        items = [(k, fm.Not(fm.disj([fm.Not(g) for g in _conjuncts(B)])) if B[0] == "a" else B, A) for k, B, A in base]
+        for (k, B, A), (_, B2, _) in zip(base, items):
+            ats = sorted(set(fm.atoms_of(B)))
+            if len(ats) <= 12 and fm.tt(B, ats) != fm.tt(B2, ats):
+                raise HarnessError(f"flatten not equivalence preserving: {fm.to_cl(B)} -> {fm.to_cl(B2)}")
+        return atoms, items, queries, items != list(base)
+    if t == "equiv:clausal":
+        # same meaning, different clause structure: a conjunctive consequent becomes the negation
+        # of a disjunction (one Tseitin-defined literal instead of one clause per conjunct), a
+        # plain consequent B becomes B,(B;x) (two clauses instead of one)
+        items = []
+        ch = False
+        mode = rnd.choice(["flatten", "flatten", "inflate", "both"])
+        for k, B, A in base:
+            conj = B[0] == "a"
+            if (conj and mode != "inflate") or (not conj and mode != "flatten" and rnd.random() < 0.5):
+                if conj:
+                    B2 = fm.Not(fm.disj([fm.Not(g) for g in _conjuncts(B)]))
+                else:
+                    B2 = fm.And(B, fm.Or(B, gen.r_literal(rnd, atoms)))
+                ats = sorted(set(fm.atoms_of(B)) | set(fm.atoms_of(B2)))
+                if len(ats) <= 12 and fm.tt(B, ats) != fm.tt(B2, ats):
+                    raise HarnessError(f"clausal rewrite not equivalence preserving: {fm.to_cl(B)} -> {fm.to_cl(B2)}")
+                items.append((k, B2, A))
+                ch = True
+            else:
+                items.append((k, B, A))
+        return atoms, items, queries, ch
     if t == "equiv:duplicate":
         # one copy of an exactly duplicated conditional is rewritten (same verification and
         # falsification sets); a base without a duplicate first gets one appended on BOTH sides,
@@ -277,7 +352,9 @@ def run_case(case, ctx):
     atoms, base, queries = m
     if not queries or not base:
         return []
-    if "equiv:duplicate" in case.get("transforms", []) and len(base) <= 12:
+    texts0 = [fm.cond_text(B, A) for _, B, A in base]
+    allts = [t for ts in (case.get("variants") or [case.get("transforms", [])]) for t in ts]
+    if "equiv:duplicate" in allts and len(base) <= 12 and len(set(texts0)) == len(texts0):
         # the ORIGINAL base carries an exact duplicate of one of its conditionals (a legal base)
         j = case.get("tseed", 0) % len(base)
         base = list(base) + [(max(k for k, _, _ in base) + 1, base[j][1], base[j][2])]
@@ -286,20 +363,20 @@ def run_case(case, ctx):
     if part is False:
         return []
     strongly = not part[-1]
-    rnd = gen.rng(case.get("tseed", 0))
-    ts = case.get("transforms", [])
-    a2, b2, q2 = list(atoms), list(base), list(queries)
-    changed = False
-    for t in ts:
-        a2, b2, q2, ch = apply_transform(t, a2, b2, q2, rnd)
-        changed = changed or ch
-        ctx.stratum(f"transform:{t}")
-    internal = any(t == "rename:internal" for t in ts)
+    variants = case.get("variants") or [case.get("transforms", [])]
+    hardkind = str(case.get("searched", "")) if str(case.get("searched", "")).startswith(("w:", "lex:")) else None
+    internal = any(t == "rename:internal" for ts in variants for t in ts)
     src = case.get("family") or ("medium" if case.get("medium") else "small")
     ctx.stratum(f"source:{src}")
     out = []
     modes = [False, True] if strongly else [True]
     cfgs = [c for c in CFGS if not (c == "c" and len(base) > 20)]
+    if hardkind:
+        # a distinguishing input targets one operator: both of its back-ends, both modes
+        ctx.stratum("source:distinguishing-input")
+        ctx.extra["reference_only_candidates"] = ctx.extra.get("reference_only_candidates", 0) + case.get("tried", 0)
+        op = hardkind.split(":")[0]
+        cfgs = [f"{op}-rc2", f"{op}-z3"]
     R1 = rel.Runner(atoms, base, queries)
     before = {}
     for weakly in modes:
@@ -309,40 +386,50 @@ def run_case(case, ctx):
             before[(cfg, weakly)] = R1.get(cfg, weakly)
     if internal:
         reset_env()
-    bid = gen.case_hash([case.get("corpus"), [[k, fm.to_json(B), fm.to_json(A)] for k, B, A in base], ts, case.get("tseed")])
-    btxt = [f"{kk}:{fm.cond_text(b, a)}" for kk, b, a in b2][:30]
     try:
-        R2 = rel.Runner(a2, b2, q2)
-        for (cfg, weakly), r1 in before.items():
-            r2 = R2.get(cfg, weakly)
-            if r1[0] == "exc":
-                ctx.ev(1)
-                # the untransformed input already fails: that is C01-C07's business
-                ctx.stratum("original-raises")
-                continue
-            if r2[0] == "exc":
-                ctx.ev(1)
-                clash = internal and "PysmtTypeError" in r2[1]
-                out.append(obs(f"{cfg}|weakly={weakly}|{r2[1]}",
-                               {"transforms": ts, "message": r2[2], "base_after": btxt,
-                                "internal_name_clash": clash}))
-                continue
-            for i, ((k, B, A), (_, B2, A2)) in enumerate(zip(queries, q2)):
-                ctx.ev(1)
-                if changed and rel_nonvacuous(B, A):
-                    ctx.nt(repr((bid, i, cfg, weakly)))
-                if bool(r1[1][i]) != bool(r2[1][i]):
-                    out.append(obs(f"{cfg}|weakly={weakly}|answer-changed",
-                                   {"transforms": ts, "query_before": fm.cond_text(B, A),
-                                    "query_after": fm.cond_text(B2, A2), "before": bool(r1[1][i]),
-                                    "after": bool(r2[1][i]), "base_after": btxt,
-                                    "base_before": [f"{kk}:{fm.cond_text(b, a)}" for kk, b, a in base][:30]}))
+        for vi, ts in enumerate(variants):
+            rnd = gen.rng(case.get("tseed", 0) + vi)
+            a2, b2, q2 = list(atoms), list(base), list(queries)
+            changed = False
+            for t in ts:
+                a2, b2, q2, ch = apply_transform(t, a2, b2, q2, rnd)
+                changed = changed or ch
+                ctx.stratum(f"transform:{t}")
+            bid = gen.case_hash([case.get("corpus"), [[k, fm.to_json(B), fm.to_json(A)] for k, B, A in base], ts,
+                                 case.get("tseed"), vi])
+            btxt = [f"{kk}:{fm.cond_text(b, a)}" for kk, b, a in b2][:30]
+            R2 = rel.Runner(a2, b2, q2)
+            for (cfg, weakly), r1 in before.items():
+                r2 = R2.get(cfg, weakly)
+                if r1[0] == "exc":
+                    ctx.ev(1)
+                    # the untransformed input already fails: that is C01-C07's business
+                    ctx.stratum("original-raises")
+                    continue
+                if r2[0] == "exc":
+                    ctx.ev(1)
+                    clash = internal and "PysmtTypeError" in r2[1]
+                    out.append(obs(f"{cfg}|weakly={weakly}|{r2[1]}",
+                                   {"transforms": ts, "message": r2[2], "base_after": btxt,
+                                    "internal_name_clash": clash}))
+                    continue
+                for i, ((k, B, A), (_, B2, A2)) in enumerate(zip(queries, q2)):
+                    ctx.ev(1)
+                    if changed and rel_nonvacuous(B, A):
+                        ctx.nt(repr((bid, i, cfg, weakly)))
+                    if bool(r1[1][i]) != bool(r2[1][i]):
+                        out.append(obs(f"{cfg}|weakly={weakly}|answer-changed",
+                                       {"transforms": ts, "query_before": fm.cond_text(B, A),
+                                        "query_after": fm.cond_text(B2, A2), "before": bool(r1[1][i]),
+                                        "after": bool(r2[1][i]), "base_after": btxt,
+                                        "base_before": [f"{kk}:{fm.cond_text(b, a)}" for kk, b, a in base][:30]}))
+            if ctx.record and len(base) >= 2 and vi == 0:
+                ctx.sample({"source": src, "transforms": ts,
+                            "base_before": [f"{kk}:{fm.cond_text(b, a)}" for kk, b, a in base][:6],
+                            "base_after": btxt[:6], "signature_after": a2[:10]})
     finally:
         if internal:
             reset_env()
-    if ctx.record and len(base) >= 2:
-        ctx.sample({"source": src, "transforms": ts, "base_before": [f"{kk}:{fm.cond_text(b, a)}" for kk, b, a in base][:6],
-                    "base_after": btxt[:6], "signature_after": a2[:10]})
     return out
 
 
@@ -355,6 +442,18 @@ def rel_nonvacuous(B, A):
 
 
 def shrink(case):
+    vs = case.get("variants") or []
+    if len(vs) > 1:
+        for v in vs:
+            c = dict(case)
+            c["variants"] = [v]
+            c["transforms"] = v
+            yield c
+    elif len(vs) == 1 and len(vs[0]) > 1:
+        for i in range(len(vs[0])):
+            c = dict(case)
+            c["variants"] = [vs[0][:i] + vs[0][i + 1:]]
+            yield c
     ts = case.get("transforms", [])
     if len(ts) > 1:
         for i in range(len(ts)):
@@ -369,4 +468,4 @@ def shrink(case):
 
 
 def required_strata(tier):
-    return [f"transform:{t}" for t in TRANSFORMS] + ["source:small", "source:medium", "source:random_large"]
+    return [f"transform:{t}" for t in TRANSFORMS] + ["source:small", "source:medium", "source:random_large", "source:distinguishing-input"]
